@@ -69,7 +69,7 @@ PROPS = {
     },
     "C05": {
         "extra": [("mix", 3, 12)], "profile": "defer", "n_quick": 5, "n_thorough": 40, "nops": 18, "nlists": 3, "cfgs": SIX,
-        "corpus": ["defer_codes", "interrupt_defer", "terminate_defer"],
+        "corpus": ["defer_codes", "interrupt_defer", "terminate_defer", "defer_action_sub", "defer_action_root"],
         "monitor": None,
         "relevant": M.relevant_by(M.proj(M.ALL, keep_res=True, keep_snap=True, keep_ev=True)),
         "rule": "machines with deferring states inside the documented envelope (deferred event not handled by the same "
@@ -174,7 +174,7 @@ PROPS = {
         "profile": "copy", "n_quick": 5, "n_thorough": 40, "nops": 20, "nlists": 3, "cfgs": ["back", "back_fct", "back11"],
         "ops": lambda g, md, n: g.gen_ops_copy(md, n, mode="saveload", pending=False),
         "extra_flags": ("-DH_SERIALIZE",),
-        "corpus": ["savehist_none", "savehist_always", "savehist_shallow"],
+        "corpus": ["savehist_none", "savehist_always", "savehist_shallow", "save_explicit_entry", "save_exit_point"],
         "monitor": M.mon_C16,
         "relevant": M.relevant_by(M.proj(M.ALL, keep_res=True, keep_snap=True, keep_ev=True)),
         "rule": "same machines as C15 under back / back11: at quiescent points with empty queues the machine is saved to a text "
